@@ -3,6 +3,7 @@
 from __future__ import annotations
 
 import ast
+import json
 
 from sa.common import fn_construct
 from sa.model import AnalysisError, load_program
@@ -15,6 +16,46 @@ MODULES = ("lambda_service", "execution", "concurrency.models")
 # run-time-only attributes that are not part of the wire form
 NOT_WIRE = {("DurableExecutionInvocationInputWithClient", "service_client")}
 
+
+
+def _service_model_keys(ck, classes, writers, readers):
+    """R7: the other end of the wire is not in this repository - but its contract is: botocore ships the service model (JSON) the SDK's client is generated
+    from. A class that only reads (responses) or only writes (requests) has no sibling table to be compared with; its keys are compared with the members of
+    the API shape of the same name. A key the model does not know is a typo the service never sends / silently ignores (StateOutput reading 'Marker' instead
+    of 'NextMarker' ends pagination after one page); a member the reader never looks at is data the service sent and the SDK dropped."""
+    import gzip
+    import importlib.util
+    spec = importlib.util.find_spec("botocore")
+    if spec is None or not spec.submodule_search_locations:
+        ck.undecided_rule("botocore is not installed next to the SDK: the service model cannot be read")
+        return
+    from pathlib import Path as _P
+    cands = sorted(_P(list(spec.submodule_search_locations)[0], "data", "lambda").glob("*/service-2.json*"))
+    if not cands:
+        ck.undecided_rule("botocore has no lambda service model")
+        return
+    raw = cands[-1].read_bytes()
+    model = json.loads(gzip.decompress(raw) if cands[-1].suffix == ".gz" else raw)
+    shapes = model.get("shapes", {})
+    ALIAS = {"CheckpointOutput": "CheckpointDurableExecutionResponse", "StateOutput": "GetDurableExecutionStateResponse"}
+    n_cls = 0
+    for c in classes:
+        shape = shapes.get(ALIAS.get(c.name, c.name))
+        if shape is None or shape.get("type") != "structure":
+            continue
+        members = set(shape.get("members", {}))
+        n_cls += 1
+        if c.fq in readers:
+            rkeys = {r.key for r in readers[c.fq].values() if r.key}
+            ck.ob("R7.wire-keys-exist-in-the-service-model", fn_construct(c.methods["from_dict"]), rkeys <= members,
+                  f"{c.name}.from_dict reads {sorted(rkeys - members)}, which the API shape {ALIAS.get(c.name, c.name)} does not have (members: {sorted(members)})", cell="reader keys")
+            ck.ob("R7.every-member-of-the-api-shape-is-read", fn_construct(c.methods["from_dict"]), members <= rkeys,
+                  f"{c.name}.from_dict never looks at {sorted(members - rkeys)} of the API shape {ALIAS.get(c.name, c.name)}: sent by the service, dropped by the SDK", cell="members read")
+        if c.fq in writers:
+            wkeys = {e.path[0] for e in writers[c.fq]}
+            ck.ob("R7.wire-keys-exist-in-the-service-model", fn_construct(c.methods["to_dict"]), wkeys <= members,
+                  f"{c.name}.to_dict writes {sorted(wkeys - members)}, which the API shape does not have (members: {sorted(members)})", cell="writer keys")
+    ck.floor("classes_with_an_api_shape", n_cls, 12)
 
 def nested_model(prog, ci, fname):
     """the SDK model class of a dataclass field (None for primitives / enums / lists)."""
@@ -154,6 +195,7 @@ def build() -> Check:
             for e in wt:
                 ck.ob("R2.written-key-is-read", construct, e.path[0] in read_keys, f"{c.name} writes key {e.path[0]!r} that its reader never looks at", cell=e.path[0])
     ck.floor("fields_judged", n_fields, 50)
+    _service_model_keys(ck, classes, writers, readers)
     # readers of classes without writer: every field is bound from some key
     for c in classes:
         if c.fq in readers:
